@@ -56,6 +56,13 @@ def targets(rng, tier):
                 r["cigar"] = [(o, l) for o, l in r["cigar"] if o not in "NP"] or [("M", 1)]
                 r["seq"] = samgen.build_seq(rng, r["cigar"], r["pos"], genome)
             samb = samgen.render_sam("REF", len(genome), srecs)
+            # sam indels: two output destinations, each one failing on its own
+            irecs = [{"name": "i%d" % qi, "flag": 0, "pos": 0, "cigar": [("M", 5), ("I", 2), ("M", 4), ("D", 3), ("M", len(genome) - 12)], "seq": ""} for qi in range(3)]
+            for r in irecs:
+                r["seq"] = samgen.build_seq(rng, r["cigar"], 0, genome)
+            isam = cm.b64(samgen.render_sam("REF", len(genome), irecs))
+            out.append(("indels_ins", {"sam": isam}))
+            out.append(("indels_del", {"sam": isam}))
             out.append(("toma", {"sam": cm.b64(samb)}))
             out.append(("toma", {"sam": cm.b64(samb), "wrap": 7}))
             out.append(("samvariants", {"sam": cm.b64(samb), "ref": cm.b64(gen.layout(rng, [("REF", genome)], "plain")),
